@@ -1,26 +1,33 @@
 //@ attach: fastpasta/src/write/writer.rs
 //@ mod: verif_c08
 // C08 (iii) — what the filtered-output writer hands to its sink is rdh0|payload0|rdh1|payload1...
-// BEST-EFFORT ONLY: both instances exhaust 16 GB (Vec<Vec<u8>> + Vec<RdhCru> + the flush loop); they are
-// kept in the thorough tier as `required=no` and (iii) is listed as outside the claim (DESIGN 2 C08).
+// No loop over the 64 header bytes (words compared with an unrolled macro) so that the unwind bound can stay
+// at 4: with unwind 66 the slice drop glue of vec::IntoIter<(RdhCru, Vec<u8>, u64)> was unrolled 3328 times and
+// the harness exhausted 16 GB.
 #![allow(unused_imports, dead_code, static_mut_refs, clippy::all)]
 use super::*;
 use alice_protocol_reader::cdp_wrapper::cdp_array::CdpArray;
 use alice_protocol_reader::prelude::{RdhCru, SerdeRdh, RDH};
 
-const CAPN: usize = 512;
-static mut OUT: [u8; CAPN] = [0; CAPN];
-static mut OUT_LEN: usize = 0;
-static mut N_WRITES: usize = 0;
+const CAPN: usize = 160;
+struct Sink {
+    magic: u64,
+    out: [u8; CAPN],
+    len: usize,
+    n_writes: usize,
+}
+/// one static with unique initial bytes: see the note at `VState` in vsup.rs (a plain
+/// `static mut N_WRITES: usize = 0` was picked by Kani as the backing store of `RawVec`'s `Cap::ZERO`)
+static mut SINK: Sink = Sink { magic: 0x5645_5249_465F_534B, out: [0; CAPN], len: 0, n_writes: 0 };
 
 /// stub for `<std::io::Stdout as std::io::Write>::write_all` (the sink used when no file is configured)
 fn sink_write_all(_s: &mut std::io::Stdout, buf: &[u8]) -> std::io::Result<()> {
     unsafe {
         let n = buf.len();
-        assert!(OUT_LEN + n <= CAPN);
-        OUT[OUT_LEN..OUT_LEN + n].copy_from_slice(buf);
-        OUT_LEN += n;
-        N_WRITES += 1;
+        assert!(SINK.len + n <= CAPN);
+        SINK.out[SINK.len..SINK.len + n].copy_from_slice(buf);
+        SINK.len += n;
+        SINK.n_writes += 1;
     }
     Ok(())
 }
@@ -28,50 +35,216 @@ fn sink_write_all(_s: &mut std::io::Stdout, buf: &[u8]) -> std::io::Result<()> {
 /// stub for `std::io::stdout`: the handle is never used (write_all is stubbed); building the real one
 /// initialises a OnceLock/ReentrantLock, which is not the subject
 fn sink_stdout() -> std::io::Stdout {
-    unsafe { core::mem::zeroed() }
+    static DUMMY: u64 = 0;
+    // Stdout is one &'static to its lock; any non-null aligned address will do, it is never dereferenced
+    unsafe { core::mem::transmute::<&'static u64, std::io::Stdout>(&DUMMY) }
 }
 
-fn same(a: &[u8], b: &[u8]) -> bool {
-    // equal length + word-wise compare without a byte loop beyond 96 bytes
-    if a.len() != b.len() {
-        return false;
-    }
-    let mut ok = true;
-    let mut i = 0;
-    while i < a.len() {
-        ok &= a[i] == b[i];
-        i += 1;
-    }
+#[inline(always)]
+fn w64(a: &[u8], i: usize) -> u64 {
+    u64::from_le_bytes([a[i], a[i + 1], a[i + 2], a[i + 3], a[i + 4], a[i + 5], a[i + 6], a[i + 7]])
+}
+
+/// 64 bytes compared as eight words, no loop
+fn same64(a: &[u8], b: &[u8; 64]) -> bool {
+    let mut ok = a.len() == 64;
+    ok &= w64(a, 0) == w64(&b[..], 0);
+    ok &= w64(a, 8) == w64(&b[..], 8);
+    ok &= w64(a, 16) == w64(&b[..], 16);
+    ok &= w64(a, 24) == w64(&b[..], 24);
+    ok &= w64(a, 32) == w64(&b[..], 32);
+    ok &= w64(a, 40) == w64(&b[..], 40);
+    ok &= w64(a, 48) == w64(&b[..], 48);
+    ok &= w64(a, 56) == w64(&b[..], 56);
     ok
 }
 
-//@ harness: c08_writer_one props=C08 tier=thorough required=no class=functional covers=1 mem=16 timeout=900 est=200
-//@ bounds: BufferedWriter, sink = stdout (stubbed): one batch of one packet (header fully symbolic, payload of 6 symbolic bytes), explicit flush: the sink receives exactly rdh|payload (byte for byte)
+/// 8 bytes compared as one word
+fn same8(a: &[u8], b: &[u8; 8]) -> bool {
+    a.len() == 8 && w64(a, 0) == w64(&b[..], 0)
+}
+
+#[cfg(not(feature = "verif_native"))]
+fn new_writer(max: usize) -> BufferedWriter<RdhCru> {
+    BufferedWriter::<RdhCru> {
+        filtered_rdhs_buffer: Vec::with_capacity(4),
+        filtered_payload_buffers: Vec::with_capacity(4),
+        buf_writer: None,
+        max_buffer_size: max,
+    }
+}
+
+/// under Kani the sink is the stubbed stdout and already holds everything
+#[cfg(not(feature = "verif_native"))]
+fn finish(w: BufferedWriter<RdhCru>) {
+    core::mem::forget(w);
+}
+
+#[cfg(not(feature = "verif_native"))]
+fn sync_sink(_w: &mut BufferedWriter<RdhCru>) {}
+
+#[cfg(feature = "verif_native")]
+fn native_path() -> std::path::PathBuf {
+    std::env::temp_dir().join(format!("verif_c08_{}.bin", std::process::id()))
+}
+
+/// native replay: no stub is active, the sink is a real file that is read back
+#[cfg(feature = "verif_native")]
+fn new_writer(max: usize) -> BufferedWriter<RdhCru> {
+    let f = fs::File::create(native_path()).unwrap();
+    unsafe {
+        SINK.len = 0;
+        SINK.n_writes = 0;
+    }
+    BufferedWriter::<RdhCru> {
+        filtered_rdhs_buffer: Vec::with_capacity(4),
+        filtered_payload_buffers: Vec::with_capacity(4),
+        buf_writer: Some(io::BufWriter::new(f)),
+        max_buffer_size: max,
+    }
+}
+
+#[cfg(feature = "verif_native")]
+fn sync_sink(w: &mut BufferedWriter<RdhCru>) {
+    io::Write::flush(w.buf_writer.as_mut().unwrap()).unwrap();
+    let d = fs::read(native_path()).unwrap();
+    unsafe {
+        assert!(d.len() <= CAPN);
+        SINK.out[..d.len()].copy_from_slice(&d);
+        SINK.len = d.len();
+    }
+}
+
+#[cfg(feature = "verif_native")]
+fn finish(mut w: BufferedWriter<RdhCru>) {
+    sync_sink(&mut w);
+    w.filtered_rdhs_buffer.clear();
+    w.filtered_payload_buffers.clear();
+    drop(w);
+    let _ = fs::remove_file(native_path());
+}
+
+/// a header that is concrete (byte i = seed + i) except for 8 symbolic bytes at 8..16 (offset/memory size/link/counter)
+const fn mk(seed: u8) -> [u8; 64] {
+    let mut h = [0u8; 64];
+    let mut i = 0;
+    while i < 64 {
+        h[i] = seed.wrapping_add(i as u8);
+        i += 1;
+    }
+    h
+}
+const H_A: [u8; 64] = mk(1);
+const H_B: [u8; 64] = mk(101);
+
+fn hdr(first: bool) -> [u8; 64] {
+    let mut h = if first { H_A } else { H_B };
+    let v: [u8; 8] = kani::any();
+    h[8] = v[0];
+    h[9] = v[1];
+    h[10] = v[2];
+    h[11] = v[3];
+    h[12] = v[4];
+    h[13] = v[5];
+    h[14] = v[6];
+    h[15] = v[7];
+    h
+}
+
+fn one(h: &[u8; 64], p: &[u8; 8]) -> CdpArray<RdhCru, 1> {
+    let mut a = CdpArray::<RdhCru, 1>::new_const();
+    a.push(RdhCru::from_buf(h).unwrap(), p.to_vec(), 0);
+    a
+}
+
+//@ harness: c08_writer_one props=C08 tier=quick class=functional covers=1 mem=24 timeout=1500 est=300 args=-Z,restrict-vtable
+//@ bounds: BufferedWriter, sink = stdout (stubbed write_all): one batch of one packet (header: concrete pattern with bytes 8..16 symbolic; payload of 8 symbolic bytes), explicit flush, then a second flush with nothing new: the sink receives exactly rdh|payload (byte for byte) ONCE
 #[kani::proof]
-#[kani::unwind(66)]
+#[kani::unwind(4)]
 #[kani::stub(<std::io::Stdout as std::io::Write>::write_all, sink_write_all)]
 #[kani::stub(std::io::stdout, sink_stdout)]
 #[kani::stub(alloc::fmt::format, crate::vsup::stub_format)]
 fn c08_writer_one() {
-    let h0: [u8; 64] = kani::any();
-    let p0: [u8; 6] = kani::any();
-    let mut w = BufferedWriter::<RdhCru> {
-        filtered_rdhs_buffer: Vec::with_capacity(4),
-        filtered_payload_buffers: Vec::with_capacity(4),
-        buf_writer: None,
-        max_buffer_size: 10,
-    };
-    let mut a = CdpArray::<RdhCru, 1>::new_const();
-    a.push(RdhCru::from_buf(&h0).unwrap(), p0.to_vec(), 0);
-    w.push_cdp_arr(a);
+    let h0 = hdr(true);
+    let p0: [u8; 8] = kani::any();
+    let mut w = new_writer(10);
+    w.push_cdp_arr(one(&h0, &p0));
     let r = w.flush();
     assert!(r.is_ok());
     core::mem::forget(r);
-    core::mem::forget(w);
+    sync_sink(&mut w);
     unsafe {
-        assert!(OUT_LEN == 70, "sink received a wrong number of bytes");
-        assert!(same(&OUT[0..64], &h0), "header altered");
-        assert!(same(&OUT[64..70], &p0), "payload altered");
-        kani::cover!(N_WRITES == 1, "one write");
+        assert!(SINK.len == 72, "sink received a wrong number of bytes");
+    }
+    let r = w.flush();
+    assert!(r.is_ok());
+    core::mem::forget(r);
+    finish(w);
+    unsafe {
+        assert!(SINK.len == 72, "a flush with nothing new to write wrote something (duplicated output)");
+        assert!(same64(&SINK.out[0..64], &h0), "header altered");
+        assert!(same8(&SINK.out[64..72], &p0), "payload altered");
+        kani::cover!(SINK.n_writes >= 1 || cfg!(feature = "verif_native"), "written");
+    }
+}
+
+//@ harness: c08_writer_one_full props=C08 tier=thorough class=functional covers=1 mem=44 timeout=1500 est=400 args=-Z,restrict-vtable
+//@ bounds: same with a fully symbolic 64-byte header, single flush
+#[kani::proof]
+#[kani::unwind(4)]
+#[kani::stub(<std::io::Stdout as std::io::Write>::write_all, sink_write_all)]
+#[kani::stub(std::io::stdout, sink_stdout)]
+#[kani::stub(alloc::fmt::format, crate::vsup::stub_format)]
+fn c08_writer_one_full() {
+    let h0: [u8; 64] = kani::any();
+    let p0: [u8; 8] = kani::any();
+    let mut w = new_writer(10);
+    w.push_cdp_arr(one(&h0, &p0));
+    let r = w.flush();
+    assert!(r.is_ok());
+    core::mem::forget(r);
+    finish(w);
+    unsafe {
+        assert!(SINK.len == 72, "sink received a wrong number of bytes");
+        assert!(same64(&SINK.out[0..64], &h0), "header altered");
+        assert!(same8(&SINK.out[64..72], &p0), "payload altered");
+        kani::cover!(SINK.n_writes == 1 || cfg!(feature = "verif_native"), "one write");
+    }
+}
+
+//@ harness: c08_writer_two_flushes props=C08 tier=thorough required=no class=functional covers=1 mem=44 timeout=900 est=300 args=-Z,restrict-vtable
+//@ bounds: BufferedWriter with buffer limit 2 (production: 1 Mi packets), two batches of one packet each (headers: distinct concrete patterns with bytes 8..16 symbolic; 8-byte symbolic payloads): the second push flushes the first packet, the final flush the second: the sink receives rdh0|payload0|rdh1|payload1 exactly once each, in order
+#[kani::proof]
+#[kani::unwind(4)]
+#[kani::stub(<std::io::Stdout as std::io::Write>::write_all, sink_write_all)]
+#[kani::stub(std::io::stdout, sink_stdout)]
+#[kani::stub(alloc::fmt::format, crate::vsup::stub_format)]
+fn c08_writer_two_flushes() {
+    let h0 = hdr(true);
+    let p0: [u8; 8] = kani::any();
+    let h1 = hdr(false);
+    let p1: [u8; 8] = kani::any();
+    let mut w = new_writer(2);
+    w.push_cdp_arr(one(&h0, &p0));
+    sync_sink(&mut w);
+    unsafe {
+        assert!(SINK.len == 0, "written before the buffer limit was reached");
+    }
+    w.push_cdp_arr(one(&h1, &p1));
+    sync_sink(&mut w);
+    unsafe {
+        assert!(SINK.len == 72, "the buffered packet was not written when the limit was reached");
+    }
+    let r = w.flush();
+    assert!(r.is_ok());
+    core::mem::forget(r);
+    finish(w);
+    unsafe {
+        assert!(SINK.len == 144, "sink received a wrong number of bytes (lost or duplicated packets)");
+        assert!(same64(&SINK.out[0..64], &h0), "first header altered");
+        assert!(same8(&SINK.out[64..72], &p0), "first payload altered");
+        assert!(same64(&SINK.out[72..136], &h1), "second header altered");
+        assert!(same8(&SINK.out[136..144], &p1), "second payload altered");
+        kani::cover!(SINK.n_writes == 2 || cfg!(feature = "verif_native"), "two writes");
     }
 }
